@@ -1,6 +1,6 @@
 """Property -> rules table. Each rule callable: (prog, tier, repo) -> [RuleResult]."""
 from .rules import traversal_instances as TI
-from .rules import traversal, printer_rules, parser_progress, loc_enclose, order_taint
+from .rules import traversal, printer_rules, parser_progress, loc_enclose, order_taint, node_comments
 from .rules import gate, lookup_unwrap, heap, witness, incremental, optimizer, const_arith, shape, backend, printer_rules, comment_linear, enum_evidence, ssa_shared, lex_bounds, gc_rules, scope, eval_order, guard_table, relation, type_walker, str_slice, loc_guard, sweep_window
 
 PROPERTIES = {}
@@ -98,9 +98,12 @@ prop('C09', COMMON +
      'in the parser the receiver holds comments lexed no later than the appended ones (ages compared by dominance of the '
      'producing lexer calls; parameters are oldest, pending_comments newest). ELEMENT-COMMENTS: every loop / per-element closure of the printer over comment-carrying nodes reads the element\'s '
      'comment reference or delegates the element on every path (lazy closures do not count). LINE-COMMENT-BREAK: a line-comment document is immediately followed '
-     'by the constant hard line break in the sequence it is emitted into. TRAVERSAL/SIBLING(T-prc): the printer reads every comment-reference slot. Does not decide '
+     'by the constant hard line break in the sequence it is emitted into. TRAVERSAL/SIBLING(T-prc): the printer reads every comment-reference slot. '
+     'COMMENT-REF-UNIQUE: a comment reference read out of a node is not stored in a second node while the first is kept. '
+     'NODE-LEADING-COMMENTS: a node handed to a printer function that does not print the node\'s leading comments has that slot read by the function handing it over, '
+     'the functions it calls or its callers (per hand-over, not only once per slot). Does not decide '
      'idempotence of the layout nor that a stored comment is printed in the right place.',
-     [comment_linear.run, comment_linear.run_fresh_reference, comment_linear.run_comment_order, comment_linear.run_comment_ref_unique, printer_rules.run_id_comment_pair, printer_rules.run_line_comment_break, printer_rules.run_element_comments, TI.make(['T-prc'])])
+     [comment_linear.run, comment_linear.run_fresh_reference, comment_linear.run_comment_order, comment_linear.run_comment_ref_unique, printer_rules.run_id_comment_pair, printer_rules.run_line_comment_break, printer_rules.run_element_comments, node_comments.run, TI.make(['T-prc'])])
 
 prop('C11', COMMON +
      'TRAVERSAL/SIBLING(T-gc): the PStr-bearing fields reachable from Module<Arc<Type>> (type walk over the ADT table) '
